@@ -5,7 +5,7 @@
 From Coq Require Import ZArith Bool List Reals Permutation Sorted.
 From Hy Require Import Base.Num Gen.ConstsC20 Model.Summary.
 From Hy Require Import Proofs.SummaryProofs Proofs.SummaryLhsProofs Proofs.SummaryParetoProofs
-  Proofs.SummaryStatsProofs Proofs.SummaryMissingProofs.
+  Proofs.SummaryStatsProofs Proofs.SummaryMissingProofs Proofs.SummaryExtraProofs.
 Import ListNotations.
 Open Scope R_scope.
 
@@ -42,13 +42,14 @@ Print Assumptions C20_constants_binary64.
 (* ================================================================== *)
 (* plotting positions                                                   *)
 
-(* accepted exactly for cst in [0, 1/2]; the array holds (i-cst)/(n+1-2cst), i = 1..n *)
-Theorem C20_ppos_accepts : forall n cst, 0 <= cst <= 1/2 ->
+(* accepted exactly for cst in the range found in the source; the array holds (i-cst)/(n+1-2cst), i = 1..n *)
+Theorem C20_ppos_accepts : forall n cst, PPOS_CST_MIN_R <= cst <= PPOS_CST_MAX_R ->
   ppos RR n cst = Some (map (ppos_at RR n cst) (zseq 1 (Z.to_nat n))).
 Proof. exact ppos_accepts. Qed.
 Print Assumptions C20_ppos_accepts.
 
-Theorem C20_ppos_rejects : forall n cst, cst < 0 \/ 1/2 < cst -> ppos RR n cst = None.
+Theorem C20_ppos_rejects : forall n cst,
+  cst < PPOS_CST_MIN_R \/ PPOS_CST_MAX_R < cst -> ppos RR n cst = None.
 Proof. exact ppos_rejects. Qed.
 Print Assumptions C20_ppos_rejects.
 
@@ -110,6 +111,18 @@ Theorem C20_standard_normal_scores : forall ppf : R -> R,
     (nth i x 0 = nth j x 0 -> nth i ranks 0 = nth j ranks 0 /\ nth i args 0 = nth j args 0).
 Proof. exact standard_normal_scores. Qed.
 Print Assumptions C20_standard_normal_scores.
+
+(* sorted=True: the ranks are 0..n-1 and the scores increase strictly with the index *)
+Theorem C20_standard_normal_sorted : forall ppf : R -> R,
+  (forall p q, 0 < p -> p < q -> q < 1 -> ppf p < ppf q) ->
+  forall x cst ranks args,
+  0 <= cst <= 1/2 ->
+  standard_normal_args RR x cst true = Some (ranks, args) ->
+  length ranks = length x /\ length args = length x /\
+  (forall i, (i < length x)%nat -> nth i ranks 0 = IZR (Z.of_nat i)) /\
+  forall i j, (i < j)%nat -> (j < length x)%nat -> ppf (nth i args 0) < ppf (nth j args 0).
+Proof. exact standard_normal_sorted. Qed.
+Print Assumptions C20_standard_normal_sorted.
 
 Example C20_standard_normal_nonvacuous :
   standard_normal_args RR [3; 1; 3] 0 false = Some ([3/2; 0; 3/2], [5/8; 1/4; 5/8]).
@@ -207,7 +220,7 @@ Print Assumptions C20_pareto_nonvacuous.
 
 (* accepted coverages; the five levels are ordered and symmetric about 50 *)
 Theorem C20_coverages_ok : forall box wh,
-  coverages_ok RR box wh = true <-> 40 <= box /\ box < wh.
+  coverages_ok RR box wh = true <-> BOX_COVERAGE_MIN_R <= box /\ box < wh.
 Proof. exact coverages_ok_RR. Qed.
 Print Assumptions C20_coverages_ok.
 
@@ -384,10 +397,23 @@ Theorem C20_violin_kde_x_length : forall {T} (N : NumOps T) data npts u,
 Proof. exact @violin_kde_x_length. Qed.
 Print Assumptions C20_violin_kde_x_length.
 
-(* the pinned code was one abscissa short for 101 rows *)
+(* the abscissae are sorted and lie within the range of the finite data enlarged by the
+   extracted jitter scale (for draws u in [-1,1]) *)
+Theorem C20_violin_kde_x_sorted : forall data npts u,
+  StronglySorted Rle (violin_kde_x RR data npts u).
+Proof. exact violin_kde_x_sorted. Qed.
+Print Assumptions C20_violin_kde_x_sorted.
+
+Theorem C20_violin_kde_x_range : forall data npts u v,
+  data <> [] -> Forall (fun w => -1 <= w <= 1) u ->
+  In v (violin_kde_x RR data npts u) ->
+  tmin RR data - Rabs VIOLIN_ERR_SCALE_R <= v <= tmax RR data + Rabs VIOLIN_ERR_SCALE_R.
+Proof. exact violin_kde_x_range. Qed.
+Print Assumptions C20_violin_kde_x_range.
+
+(* the pinned code was one abscissa short when the number of points is odd (witness 101) *)
 Theorem C20_violin_kde_x_pinned_refuted :
   exists data npts u, (0 <= npts)%Z /\ length u = Z.to_nat (npts / 2) /\
-    violin_npoints 101 = npts /\
     length (violin_kde_x_pinned RR data npts u) <> Z.to_nat npts.
 Proof. exact violin_kde_x_pinned_refuted. Qed.
 Print Assumptions C20_violin_kde_x_pinned_refuted.
